@@ -8,8 +8,8 @@ from lib.core import *
 from lib import gen_net
 
 ID = "C13"
-PROPS_FILES = ["Gama/Props/C13.lean"]
-LEAN_TARGETS = ["Gama.Props.C13"]
+PROPS_FILES = ["Gama/Props/C13.lean", "Gama/Props/C13Rerun.lean", "Gama/Props/C13Removed.lean"]
+LEAN_TARGETS = ["Gama.Props.C13", "Gama.Props.C13Rerun", "Gama.Props.C13Removed"]
 DRIVERS = ["drv_export"]
 RULE = ("net: generated 1D/2D/3D networks (every observation and cluster type, axes/angle conventions, sexagesimal input, "
         "gross errors that get observations removed) through 3 export/adjust rounds; doc: generated whole documents (8 axes x 2 angle "
@@ -109,6 +109,17 @@ def translate(ctx):
         _g18.run(ctx.repo, ctx.lean)
     except _g18.Unparsable as e:
         raise TieBroken("c18_ellipsoids", str(e))
+    # round 9: Props/C13Rerun.lean is about RA.refineAdjustment over the REGENERATED tests (Gen/RefineObsdh.lean,
+    # Gen/TestLinVisitor.lean: C06's translator) and PE.projectEquations over C05's Gen/Linearization.lean;
+    # Props/C13Removed.lean's witness runs C14's regenerated test_abs_term (Gen/Revision.lean): regenerate them from THIS
+    # tree, so that a C13 run does not depend on C05 / C06 / C14 having been run on it (their own TieBroken propagates)
+    from gen import c05_linearization as _g05, c06_testlin as _g06, c14_revision as _g14
+    _g05.translate(ctx.repo, ctx.lean)
+    _g06.translate(ctx.repo, ctx.lean)
+    try:
+        _g14.run(ctx.repo, ctx.lean / "Gama" / "Gen" / "Revision.lean")
+    except _g14.Unparsable as e:
+        raise TieBroken("tools/gen/c14_revision.py", str(e))
 
 
 # ---------------------------------------------------------------- reading gkf files (independent reader)
